@@ -916,6 +916,10 @@ impl Node {
         thread_local! {
             static CACHE: RefCell<HashMap<(u64, Purity), bool>> = RefCell::default();
         }
+        #[cfg(feature = "verif_hooks")]
+        if crate::verif::c12::bypassed(crate::verif::c12::PURITY) {
+            CACHE.with(|cache| cache.borrow_mut().clear());
+        }
 
         let mut hasher = RapidHasher::new(1);
         self.hash(&mut hasher);
